@@ -139,6 +139,22 @@ func propSpecs() map[string]*PropSpec {
 			Assume: append([]string{"strings.Title on symbolic bytes is modelled for ASCII; on concrete words the native function is used"}, commonAssume...),
 		},
 		{
+			ID: "C09", Sub: "spg", Level: "model_checking",
+			Harnesses: []HSpec{
+				{Name: "H09", Quick: P{"recipes": 3, "reads": 5, "unwind:randomUint32n": 2, "unwind_expected": 1}, Thorough: P{"recipes": 5, "reads": 9, "unwind:randomUint32n": 3, "unwind_expected": 1}, Reach: []string{"returned", "fault-hit", "no-fault"}},
+				{Name: "H09s", Quick: P{"recipes": 3, "unwind:randomUint32n": 2, "unwind_expected": 1}, Thorough: P{"recipes": 5, "unwind:randomUint32n": 3, "unwind_expected": 1}, Reach: []string{"returned", "generated"}},
+				{Name: "H09d", Quick: P{"recipes": 3, "unwind:randomUint32n": 2, "unwind_expected": 1}, Thorough: P{"recipes": 5, "unwind:randomUint32n": 2, "unwind_expected": 1}, Reach: []string{"same"}},
+			},
+			Bounds: map[string]string{
+				"H09":     "five recipes (two character recipes, one with a requirement and a retry; three wordlist recipes with 'one', 'random', a preset and a constructed separator function); the real kernel on symbolic source bytes with at most one (thorough two) rejected word per draw; a source failure at every read position 0..reads (quick 5, thorough 9) delivering 0..3 bytes",
+				"H09s":    "the same recipes with a source that may return any 1..4 bytes per successful Read call",
+				"H09d":    "the same recipes run twice on one stream",
+				"outside": "generations that need more reads than the bound; more consecutive rejections than stated; the callee inventory beyond what the executed paths reach (an unmodelled environment call stops the path and is reported, then judged by the native determinism run)",
+			},
+			Assume: commonAssume,
+			Extra:  c09NativeDeterminism,
+		},
+		{
 			ID: "C11", Sub: "spg", Level: "model_checking",
 			Harnesses: []HSpec{
 				{Name: "H11a", Quick: P{"t": 3, "b": 3}, Thorough: P{"t": 3, "b": 3, "anytype": 1}, Reach: []string{"indexed", "roundtrip", "non-ascii"}},
